@@ -2,6 +2,7 @@ package main
 
 import (
 	"bytes"
+	"encoding/gob"
 	"encoding/json"
 	"fmt"
 	"os"
@@ -28,12 +29,14 @@ type c17Op struct {
 	Variant int    `json:"variant,omitempty"`
 	Elem    string `json:"elem,omitempty"`
 	Cache   string `json:"cache,omitempty"` // "" none | "own" | "shared"
+	Root    string `json:"root,omitempty"`  // "" a root of its own | "shared-typed": one typed root document shared by the threads (read-only for everybody)
 }
 
 type c17Scenario struct {
 	Name    string
 	Threads []c17Op
 	Fresh   bool // every execution in a fresh process (lazy initialisation is part of the scenario)
+	Long    bool // many scheduling points: one preemption less than the other scenarios
 }
 
 func c17Scenarios() []c17Scenario {
@@ -46,6 +49,10 @@ func c17Scenarios() []c17Scenario {
 		{Name: "resolve-vs-expand", Threads: []c17Op{{Kind: "ResolveRefWithBase", Variant: 1, Elem: "sib.json#/definitions/N1"}, {Kind: "ExpandSpec", Variant: 1}}},
 		{Name: "three-threads", Threads: []c17Op{{Kind: "ExpandSpec", Variant: 2}, {Kind: "ResolveRefWithBase", Variant: 1, Elem: "#/definitions/N0"}, {Kind: "Marshal", Variant: 3}}},
 		{Name: "expand-into-built-in-meta-schemas", Threads: []c17Op{{Kind: "MetaExpand2", Variant: 1}, {Kind: "MetaExpand2", Variant: 2}}},
+		{Name: "with-root-entry-points-share-typed-root-and-cache", Threads: []c17Op{{Kind: "ExpandResponseWithRoot", Variant: 6, Elem: "/responses/RR", Cache: "shared", Root: "shared-typed"}, {Kind: "ExpandParameterWithRoot", Variant: 6, Elem: "/parameters/PR", Cache: "shared", Root: "shared-typed"}}},
+		{Name: "with-root-same-element-shared-typed-root", Threads: []c17Op{{Kind: "ExpandResponseWithRoot", Variant: 6, Elem: "/responses/RR", Cache: "shared", Root: "shared-typed"}, {Kind: "ExpandResponseWithRoot", Variant: 6, Elem: "/responses/RR", Cache: "shared", Root: "shared-typed"}}},
+		{Name: "loaded-meta-schema-expanded-in-place-vs-refs-into-it", Long: true, Threads: []c17Op{{Kind: "MetaLoadExpand", Variant: 1}, {Kind: "MetaExpand2", Variant: 2}}},
+		{Name: "gob-and-json-encode-shared-document", Threads: []c17Op{{Kind: "GobEncode", Variant: 3}, {Kind: "GobEncode", Variant: 3}, {Kind: "Marshal", Variant: 3}}},
 		{Name: "first-calls-race-on-lazy-init", Fresh: true, Threads: []c17Op{{Kind: "MetaExpand"}, {Kind: "ExpandSpec", Variant: 2}}},
 	}
 }
@@ -53,12 +60,28 @@ func c17Scenarios() []c17Scenario {
 type c17Shared struct {
 	cache spec.ResolutionCache
 	doc   *spec.Swagger
+	roots map[string]interface{} // "typed" -> the root document shared by the threads
+}
+
+// fingerprint of everything the threads share and nobody may modify
+func (sh *c17Shared) fingerprint() string {
+	var parts []string
+	if sh.doc != nil {
+		parts = append(parts, "doc="+rootJSON(sh.doc))
+	}
+	if sh.roots != nil {
+		parts = append(parts, "root="+rootJSON(sh.roots["typed"]))
+	}
+	return strings.Join(parts, "\n")
 }
 
 func c17Body(op c17Op, sh *c17Shared) func() interface{} {
 	return func() interface{} {
 		b := c16Universe(maxInt(op.Variant, 1))
 		cs := &expCase{built: *b, noGlobalLoader: true}
+		if op.Root == "shared-typed" {
+			cs.sharedRoots = sh.roots
+		}
 		var cache spec.ResolutionCache
 		switch op.Cache {
 		case "own":
@@ -85,6 +108,22 @@ func c17Body(op c17Op, sh *c17Shared) func() interface{} {
 			err := spec.ExpandSchema(&s, nil, nil)
 			bb, _ := json.Marshal(s)
 			return fmt.Sprintf("err=%v %x len=%d", err, sha(bb), len(bb))
+		case "MetaLoadExpand":
+			// what a validator does: load "its" copy of a built-in meta-schema and expand it in place
+			s := spec.MustLoadJSONSchemaDraft04()
+			if op.Variant == 2 {
+				s = spec.MustLoadSwagger20Schema()
+			}
+			err := spec.ExpandSchema(s, s, nil)
+			bb, _ := json.Marshal(s)
+			return fmt.Sprintf("err=%v %x len=%d", err, sha(bb), len(bb))
+		case "GobEncode":
+			var buf bytes.Buffer
+			err := gob.NewEncoder(&buf).Encode(sh.doc)
+			var back spec.Swagger
+			derr := gob.NewDecoder(&buf).Decode(&back)
+			bb, _ := json.Marshal(back)
+			return fmt.Sprintf("err=%v/%v %x len=%d", err, derr, sha([]byte(canonJSON(mustParse(string(bb))))), len(bb))
 		case "MetaExpand":
 			var s spec.Schema
 			json.Unmarshal([]byte(`{"$ref":"http://json-schema.org/draft-04/schema#/properties/maxLength"}`), &s)
@@ -92,7 +131,8 @@ func c17Body(op c17Op, sh *c17Shared) func() interface{} {
 			bb, _ := json.Marshal(s)
 			return fmt.Sprintf("err=%v %s", err, bb)
 		}
-		r := doCall(cs, call{Fn: op.Kind, Elem: op.Elem, Root: map[bool]string{true: "typed", false: "nil"}[op.Kind == "ExpandSchema"]}, cache, 0)
+		rootMode := map[bool]string{true: "typed", false: "nil"}[op.Kind == "ExpandSchema" || op.Root == "shared-typed"]
+		r := doCall(cs, call{Fn: op.Kind, Elem: op.Elem, Root: rootMode}, cache, 0)
 		loads := fmt.Sprint(r.Loads)
 		if op.Cache == "shared" {
 			loads = "(shared cache: who loads a document is not part of the answer)"
@@ -119,7 +159,14 @@ func c17Setup(sc c17Scenario) *c17Shared {
 		if op.Cache == "shared" && sh.cache == nil {
 			sh.cache = spec.VerifNewCache()
 		}
-		if (op.Kind == "Marshal" || op.Kind == "Lookup") && sh.doc == nil {
+		if op.Root == "shared-typed" && sh.roots == nil {
+			sw := new(spec.Swagger)
+			if err := json.Unmarshal(c16Universe(op.Variant).Docs[docURLs[0]], sw); err != nil {
+				panic(harnessBug{"shared root: " + err.Error()})
+			}
+			sh.roots = map[string]interface{}{"typed": sw}
+		}
+		if (op.Kind == "Marshal" || op.Kind == "Lookup" || op.Kind == "GobEncode") && sh.doc == nil {
 			sh.doc = new(spec.Swagger)
 			json.Unmarshal(c16Universe(op.Variant).Docs[docURLs[0]], sh.doc)
 			// a document as a program builds it: extension maps may hold keys without the x- prefix
@@ -135,11 +182,12 @@ func c17Setup(sc c17Scenario) *c17Shared {
 }
 
 type c17Exec struct {
-	Results  []string
-	Races    []string
-	Deadlock bool
-	Trace    []verifrt.Point
-	Globals  string
+	SharedBefore, SharedAfter string
+	Results                   []string
+	Races                     []string
+	Deadlock                  bool
+	Trace                     []verifrt.Point
+	Globals                   string
 }
 
 // c17RunOnce runs one execution of a scenario under the given schedule prefix (in this process).
@@ -149,10 +197,12 @@ func c17RunOnce(sc c17Scenario, prefix []int) (e c17Exec) {
 	for _, op := range sc.Threads {
 		bodies = append(bodies, c17Body(op, sh))
 	}
+	e.SharedBefore = sh.fingerprint()
 	verifrt.Reset(prefix, true)
 	verifrt.MapOrder = false
 	res := verifrt.Run(bodies...)
 	verifrt.Active = false
+	e.SharedAfter = sh.fingerprint()
 	for _, r := range res {
 		if p, ok := r.(verifrt.PanicResult); ok {
 			e.Results = append(e.Results, "PANIC: "+p.Msg)
@@ -262,11 +312,21 @@ func c17Judge(c *Ctx, si int, e c17Exec, bound int, report bool) string {
 			viol("answer-differs-from-sequential", tail(refs[t], 400), tail(r, 400), fmt.Sprintf("thread %d (%s)", t, sc.Threads[t].Kind))
 		}
 	}
+	if e.SharedAfter != e.SharedBefore {
+		viol("shared-document-modified", tail(e.SharedBefore, 300), tail(e.SharedAfter, 300), "a document the threads only share for reading (root / encoded document) is not what it was before the run")
+	}
 	if len(e.Races) > 0 {
 		viol("data-race", "", e.Races[0], fmt.Sprintf("%d unordered conflicting accesses, first: %s", len(e.Races), e.Races[0]))
 	}
-	if e.Globals != refGlobals {
-		viol("package-state-differs", refGlobals, e.Globals, "the package-level state after the concurrent run differs from the state after a sequential run")
+	// package-level state: for the lazy-initialisation scenarios (fresh process per execution) the state a
+	// sequential run leaves behind; otherwise the state this process was in when the exploration of the
+	// scenario started (after warm-up and the profiling execution)
+	wantGlobals := refGlobals
+	if !sc.Fresh {
+		wantGlobals = c17BaseGlobals
+	}
+	if e.Globals != wantGlobals {
+		viol("package-state-differs", wantGlobals, e.Globals, "the package-level state after the concurrent run differs from the state before it (sequential use leaves it unchanged)")
 	}
 	return outcome
 }
@@ -312,7 +372,10 @@ func c17Profile(sc c17Scenario) {
 		verifrt.SharedSites[st] = true
 	}
 	verifrt.YieldAtAccess = 2
+	c17BaseGlobals = deepGlobals()
 }
+
+var c17BaseGlobals string
 
 var c17Warmed bool
 
@@ -349,6 +412,9 @@ func c17Run(c *Ctx) {
 		b := bound
 		if len(sc.Threads) > 2 && c.Quick() {
 			b = 1
+		}
+		if sc.Long {
+			b = bound - 1
 		}
 		ex := &Explorer{Bound: b, ShardK: c.Shard, ShardN: c.N}
 		if sc.Fresh {
